@@ -812,11 +812,13 @@ func (ch *clientHost) checkRedirect(repo string, orig func(req *http.Request, vi
 		if len(via) >= 10 {
 			return errors.New("stopped after 10 redirects")
 		}
-		// add auth headers if appropriate for the target host
-		hAuth := ch.getAuth(repo)
-		err := hAuth.UpdateRequest(req)
-		if err != nil {
-			return err
+		// add auth headers if appropriate for the target host, but never in clear text to a host configured for TLS
+		if req.URL.Scheme == "https" || ch.config.TLS == config.TLSDisabled {
+			hAuth := ch.getAuth(repo)
+			err := hAuth.UpdateRequest(req)
+			if err != nil {
+				return err
+			}
 		}
 		// wrap original redirect check
 		if orig != nil {
